@@ -89,6 +89,27 @@ class FunctionResult(object):
 
 
 def verify_function(ex, c, prop):
+    """Verify c; when the contract declares `cases` (a ghost case split), once per case plus an
+    exhaustiveness obligation."""
+    cases = getattr(c, 'cases', None)
+    if not cases:
+        return verify_function1(ex, c, prop, None)
+    total = None
+    for cname, ctext in cases:
+        fr = verify_function1(ex, c, prop, (cname, ctext))
+        if total is None:
+            total = fr
+        else:
+            total.obls += fr.obls
+            total.paths += fr.paths
+            for k, v in fr.exits.items():
+                total.exits[k] = total.exits.get(k, 0) + v
+            total.seconds += fr.seconds
+            total.bounded += fr.bounded
+    return total
+
+
+def verify_function1(ex, c, prop, case):
     """Returns FunctionResult with undischarged obligations."""
     t0 = time.time()
     fres = FunctionResult(c)
@@ -128,9 +149,30 @@ def verify_function(ex, c, prop):
     senv0 = SpecEnv(st, dict(env))
     for nm, text in c.requires + c.inv:
         st.assume(ex.spec.bool(text, senv0))
+    if case is not None:
+        pre_only = list(st.pc)
+        st.assume(ex.spec.bool(case[1], senv0))
+        if case is c.cases[0]:
+            disj = z3.Or([ex.spec.bool(t, senv0) for _, t in c.cases])
+            fres.obls.append(Obl(prop, c.qualname, 'cases-exhaustive', 'entry', pre_only, disj, 'cases'))
+        st.trace.append('[%s]' % case[0])
     for ax in ex.spec.side:
         st.assume(ax)
     ex.spec.side = []
+    for ut in c.uses:
+        st.assume(ex.spec.bool(ut, senv0))
+    for ax in ex.spec.side:
+        st.assume(ax)
+    ex.spec.side = []
+    hint_obls = []
+    for hi, (hcase, htext) in enumerate(c.hints):
+        if hcase is not None and (case is None or case[0] != hcase):
+            continue
+        hg = ex.spec.bool(htext, senv0)
+        hside = list(ex.spec.side)
+        ex.spec.side = []
+        hint_obls.append((hi, list(st.pc) + hside, hg))
+        st.assume(hg)
     inputs = []
     seen = set()
     for v in env.values():
@@ -142,6 +184,10 @@ def verify_function(ex, c, prop):
     fr.root = fr
     fr.pre_env = pre_env
     ex.cur = fr
+    for hi, assum, hg in hint_obls:
+        fres.obls.append(Obl(prop, c.qualname, 'hint%d' % hi, 'entry' + ('[%s]' % case[0] if case else ''), assum, hg,
+                             'hint', inputs=inputs))
+    ex.prune = bool(c.prune)
     # vacuity: precondition satisfiable
     fres.obls.append(Obl(prop, c.qualname, 'vacuity.pre-satisfiable', 'entry', list(st.pc), z3.BoolVal(False),
                          'cover', inputs=inputs))
@@ -278,35 +324,98 @@ def smt_name(n):
     return '|%s|' % n
 
 
+def slice_assumptions(assumptions, goal):
+    """cone of influence: keep the assumptions that (transitively) share a symbol with the goal.
+    Dropping assumptions only weakens the hypothesis, so `unsat` for the slice is a proof."""
+    gs = consts_and_funcs([goal])
+    syms = [consts_and_funcs([a]) for a in assumptions]
+    keep = [False] * len(assumptions)
+    changed = True
+    while changed:
+        changed = False
+        for i, sy in enumerate(syms):
+            if not keep[i] and (sy & gs):
+                keep[i] = True
+                gs |= sy
+                changed = True
+    return [a for a, k in zip(assumptions, keep) if k]
+
+
+def consts_and_funcs(terms):
+    seen = set()
+    names = set()
+    stack = list(terms)
+    while stack:
+        t = stack.pop()
+        k = t.get_id()
+        if k in seen:
+            continue
+        seen.add(k)
+        if z3.is_quantifier(t):
+            stack.append(t.body())
+            continue
+        if z3.is_app(t):
+            if t.decl().kind() == z3.Z3_OP_UNINTERPRETED:
+                names.add(t.decl().name())
+            stack.extend(t.children())
+    return names
+
+
 def discharge(obls, budget=10.0, workers=None):
     """cover obligations: expected SAT (goal False, assumptions satisfiable).
-    everything else: assumptions ∧ ¬goal expected UNSAT."""
+    everything else: assumptions and not goal expected UNSAT; first on the cone-of-influence
+    slice of the assumptions, then (if that is not unsat) on all of them."""
     jobs = []
     for ob in obls:
+        if ob.verdict is not None and ob.kind == 'enumerated':
+            continue
         if ob.kind == 'cover':
             asserts = list(ob.assumptions)
-            gv = []
-        else:
-            asserts = list(ob.assumptions) + [z3.Not(ob.goal)]
-            present = consts_in(asserts)
-            gv = [smt_name(n) for n in input_names(ob) if n in present]
-        # quick syntactic discharge
-        simp = z3.simplify(z3.And(asserts)) if asserts else z3.BoolVal(True)
+            if not asserts or z3.is_true(z3.simplify(z3.And(asserts))):
+                ob.verdict, ob.backend = 'sat', 'simplify'
+                continue
+            jobs.append((ob, (ob.full, smt.to_smt2(asserts, []), False, False), False))
+            continue
+        full = list(ob.assumptions) + [z3.Not(ob.goal)]
+        simp = z3.simplify(z3.And(full))
         if z3.is_false(simp):
             ob.verdict = 'unsat'
             ob.backend = 'simplify'
             continue
-        txt = smt.to_smt2(asserts, gv)
-        jobs.append((ob, (ob.full, txt, bool(gv), ob.kind != 'cover')))
+        sl = slice_assumptions(list(ob.assumptions), ob.goal)
+        if len(sl) < len(ob.assumptions):
+            jobs.append((ob, (ob.full + '#slice', smt.to_smt2(sl + [z3.Not(ob.goal)], []), False, False), True))
+        else:
+            jobs.append((ob, _full_job(ob), False))
     results = smt.solve_many([j[1] for j in jobs], budget=budget, workers=workers)
-    for (ob, _), r in zip(jobs, results):
-        ob.verdict = r['verdict']
-        ob.backend = r['backend']
-        ob.seconds = r['seconds']
-        ob.outputs = r['outputs']
-        if r['verdict'] in ('sat', 'sat?') and ob.kind != 'cover':
-            ob.model = smt.parse_get_value(r.get('model_text', ''))
+    retry = []
+    for (ob, _, sliced), r in zip(jobs, results):
+        ob.seconds += r['seconds']
+        if sliced and r['verdict'] != 'unsat':
+            retry.append(ob)
+            continue
+        _record(ob, r, ' (sliced)' if sliced else '')
+    if retry:
+        results = smt.solve_many([_full_job(ob) for ob in retry], budget=budget, workers=workers)
+        for ob, r in zip(retry, results):
+            ob.seconds += r['seconds']
+            _record(ob, r, '')
     return obls
+
+
+def _full_job(ob):
+    asserts = list(ob.assumptions) + [z3.Not(ob.goal)]
+    present = consts_in(asserts)
+    gv = [smt_name(n) for n in input_names(ob) if n in present]
+    return (ob.full, smt.to_smt2(asserts, gv), bool(gv), True)
+
+
+def _record(ob, r, suffix):
+    ob.verdict = r['verdict']
+    ob.backend = (r['backend'] or 'none') + suffix if r['backend'] else None
+    ob.outputs = r['outputs']
+    if r['verdict'] in ('sat', 'sat?') and ob.kind != 'cover':
+        ob.model = smt.parse_get_value(r.get('model_text', ''))
 
 
 def status(ob):
